@@ -368,6 +368,8 @@ static inline Result exec_plan(Harness &h, const Plan &full, Trace &tr)
         r.sig = v.sig;
         r.detail = v.detail;
     }
+    for (auto &ch : r.sig) // signatures travel in space-separated protocol lines
+        if (ch == ' ' || ch == '\t' || ch == '\n') ch = '_';
     r.hash = tr.h;
     if (r.steps == 0) r.steps = tr.nev;
     return r;
